@@ -253,3 +253,95 @@ Example C10_count_pairs_concrete :
   c10_count_case true edges true true data true true rand pairs
     [[6; 0; 0]; [8; 0; 0]; [16; 0; 12]] [[0; 0; 8]; [0; 2; 0]; [1; 4; 0]] = 37%nat.
 Proof. vm_compute. repeat split; reflexivity. Qed.
+
+(* ---- histories of the tree cache: the patches of one catalog may hold trees for DIFFERENT binnings
+        (BinnedTrees.build on some patches only, Catalog.build_trees / a measurement interrupted
+        after some patches) when the measured build is requested ---- *)
+
+(* every history keeps the invariant "a patch's cached trees are the trees of the binning stored with them" *)
+Theorem C10_cache_history_valid : forall hasw patches hist c,
+  cache_valid hasw patches c -> cache_valid hasw patches (run_history hasw patches hist c).
+Proof. exact run_history_valid. Qed.
+Print Assumptions C10_cache_history_valid.
+
+(* for EVERY history (per-patch builds on any patches in any order, complete and interrupted
+   catalog-wide builds, any binnings, closed sides and force flags) the next Catalog.build_trees leaves
+   in EVERY patch trees in which each object sits in exactly the bin of `member` for the requested
+   edges and closed side; a patch keeps its cached trees only if the binning stored with THEM is the
+   requested one *)
+Theorem C10_cache_history_member : forall hasw patches c0 hist force cr edges,
+  increasing edges -> (2 <= length edges)%nat -> cache_valid hasw patches c0 ->
+  let c := cat_build hasw force (Some (cr, edges)) patches (run_history hasw patches hist c0) in
+  length c = length patches /\
+  forall p, (p < length patches)%nat ->
+    exists k t, nth p c None = Some (k, t) /\ bkey_eqb k (Some (cr, edges)) = true /\
+      length t = nbins edges /\
+      forall b, (b < nbins edges)%nat ->
+        fst (nth b t dummy_tree) = spec_count cr edges (nth p patches []) b /\
+        snd (nth b t dummy_tree) == spec_weight hasw cr edges (nth p patches []) b.
+Proof. exact cache_history_member. Qed.
+Print Assumptions C10_cache_history_member.
+
+(* the sample without binning of a cross-correlation: one tree over all objects of the patch, whatever
+   binned trees the patch held before *)
+Theorem C10_cache_history_unbinned : forall hasw patches c0 hist force,
+  cache_valid hasw patches c0 ->
+  let c := cat_build hasw force None patches (run_history hasw patches hist c0) in
+  length c = length patches /\
+  forall p, (p < length patches)%nat -> nth p c None = Some (None, [make_tree hasw (nth p patches [])]).
+Proof. exact cache_history_unbinned. Qed.
+Print Assumptions C10_cache_history_unbinned.
+
+(* the per-bin weight sums a measurement reads from that cache *)
+Theorem C10_cache_history_sum_weights : forall hasw patches c0 hist force cr edges b p,
+  increasing edges -> (2 <= length edges)%nat -> cache_valid hasw patches c0 ->
+  (b < nbins edges)%nat -> (p < length patches)%nat ->
+  let c := cat_build hasw force (Some (cr, edges)) patches (run_history hasw patches hist c0) in
+  nth p (nth b (sum_weights_of (nbins edges) (cache_trees c)) []) 0 ==
+  spec_weight hasw cr edges (nth p patches []) b.
+Proof. exact cache_history_sum_weights. Qed.
+Print Assumptions C10_cache_history_sum_weights.
+
+(* the theorem has content: a catalog-wide build that trusts the binning stored with the FIRST patch
+   keeps, after a rebuild that was interrupted behind that patch, the old closed side elsewhere *)
+Theorem C10_cache_first_patch_refuted :
+  exists patches hist edges,
+    increasing edges /\ (2 <= length edges)%nat /\
+    let k := Some (false, edges) in
+    let pre := run_history true patches hist (cache_init (length patches)) in
+    map (option_map fst) pre = [Some k; None; Some (Some (true, edges))] /\
+    nth 2 (cat_build_first true false k patches pre) None = Some (Some (true, edges), [(1%nat, 1); (0%nat, 0)]) /\
+    nth 2 (cat_build true false k patches pre) None = Some (k, [(0%nat, 0); (1%nat, 1)]) /\
+    spec_trees true false edges (nth 2 patches []) = [(0%nat, 0); (1%nat, 1)].
+Proof. exact cache_first_patch_refuted. Qed.
+Print Assumptions C10_cache_first_patch_refuted.
+
+(* the checker the harness evaluates on every observed cache history *)
+Theorem C10_cache_case_sound : forall hasw patches hist force cr edges obs_pre obs_post ih im,
+  c10_cache_case hasw patches hist force (Some (cr, edges)) edges obs_pre obs_post ih im = 0%nat ->
+  increasing edges /\ (2 <= length edges)%nat /\ length obs_post = length patches /\
+  forall p, (p < length patches)%nat ->
+    exists k t, nth p obs_post None = Some (k, t) /\ bkey_eqb k (Some (cr, edges)) = true /\
+      forall b, (b < nbins edges)%nat ->
+        fst (nth b t dummy_tree) = spec_count cr edges (nth p patches []) b /\
+        snd (nth b t dummy_tree) == spec_weight hasw cr edges (nth p patches []) b.
+Proof. exact cache_case_sound. Qed.
+Print Assumptions C10_cache_case_sound.
+
+(* non-vacuity: three patches with a redshift on the inner edge 1/2; trees for closed = right everywhere,
+   then BinnedTrees.build with closed = left on patch 0 only; Catalog.build_trees(closed = left) rebuilds
+   patches 1 and 2 and the checker accepts the result (0); the cache a first-patch shortcut would leave
+   is flagged: flags 0 (model), 1 (spec), 2 (reported binning) and, with the measurement, 4 and 7 *)
+Example C10_cache_concrete :
+  let e := [1#4; 1#2; 1] in
+  let patches := [[(1#2, 1); (3#4, 2)]; [(1#2, 4)]; [(1#2, 8); (3#8, 16)]] in
+  let hist := [HCatalog false (Some (true, e)); HPatches [0%nat] false (Some (false, e))] in
+  let pre := run_history true patches hist (cache_init 3) in
+  let good := cat_build true false (Some (false, e)) patches pre in
+  pre = [Some (Some (false, e), [(0%nat, 0); (2%nat, 3)]); Some (Some (true, e), [(1%nat, 4); (0%nat, 0)]);
+         Some (Some (true, e), [(2%nat, 24); (0%nat, 0)])] /\
+  good = [Some (Some (false, e), [(0%nat, 0); (2%nat, 3)]); Some (Some (false, e), [(0%nat, 0); (1%nat, 4)]);
+          Some (Some (false, e), [(1%nat, 16); (1%nat, 8)])] /\
+  c10_cache_case true patches hist false (Some (false, e)) e pre good (Some [16; 15]) (Some [[0; 0; 16]; [3; 4; 8]]) = 0%nat /\
+  c10_cache_case true patches hist false (Some (false, e)) e pre pre (Some [16; 15]) (Some [[0; 4; 24]; [3; 0; 0]]) = 151%nat.
+Proof. vm_compute. repeat split; reflexivity. Qed.
